@@ -70,6 +70,18 @@
     MODIFY of every `modify` record, `Table.walkCols_modify`).  COMMENT texts are compared through `String.replace`
     (quote doubling), whose injectivity is not proved: a column that differs in a COMMENT only is outside the theorem.
 
+  * `columns_on_reference_engine` — **the column clause on the reference engine itself**: for two scripts the engine
+    accepts (default field order, column definitions without inline PRIMARY KEY and without COMMENT options) and a
+    table present on both sides whose common columns keep their relative order, the statements `MigrationColumnUp`
+    prints for the diffed record — ADD COLUMN with its position, DROP COLUMN, MODIFY COLUMN —, executed by
+    `Spec.execAll` on the *old schema* (referential checks aside), are well-formed at every step; afterwards the table's
+    column list is `colsEquiv` to the new side's (same columns, same order, same types, same options up to order) and
+    every other table is untouched.  This composes everything above on columns: the names and positions
+    (`columns_from_scripts`, lifted from the abstract machine to `Spec.exec` by `colExecAll_of_abs`), the attributes
+    (`added_column_def`, `changed_column_modified`, `equal_column_untouched`, with at most one statement per column:
+    `Table.walkCols_stmtCols`), and the lift from the table's column list to the database (`execAll_of_colExecAll`).
+    Proofs/SpecCols.lean, Proofs/SpecColsDb.lean.
+
   * `equal_primary_key_untouched` — likewise an unchanged primary key declared at table level gets no ADD / DROP
     PRIMARY KEY, whatever dropped-column list the index walk is called with (reader fidelity on table-level keys,
     C05.primary_key_table_level).
@@ -80,8 +92,9 @@
     have gets neither —, which turns the old set of tables into the new one (Proofs/TablesClause: what the two table
     loops of `Migration.Diff` leave, and the table-level content of each printer).
 
-  Missing for `Statement_partial`: a changed primary key (recorded finding `pk-changed`), a column that differs in its
-  COMMENT only, and the lift from one table's lists to the whole schema.  Those parts are covered by the correspondence run and
+  Missing for `Statement_partial`: a changed primary key (recorded finding `pk-changed`), COMMENT options, and the same
+  lift to `Spec.exec` for the index / foreign-key / table clauses (proved on their abstract machines) and for all
+  tables at once.  Those parts are covered by the correspondence run and
   by the executable predicate `Spec.c01` evaluated on the implementation's printed migration on every check.
 -/
 import SqlizeModel.Abs.Columns
@@ -91,6 +104,7 @@ import SqlizeModel.Proofs.EndToEnd
 import SqlizeModel.Proofs.EndToEndElems
 import SqlizeModel.Proofs.Untouched
 import SqlizeModel.Proofs.Changed
+import SqlizeModel.Proofs.SpecColsDb
 import SqlizeModel.Proofs.TablesClause
 import SqlizeModel.Impl.Api
 import SqlizeModel.Spec.Scope
@@ -229,6 +243,42 @@ example : ∃ d, loadAndDiff {} exOldM exNewM = .ok d ∧
       [([some ({ name := "a", typ := "int(11)", opts := [.default "2"] }, false)],
         [some ({ name := "a", typ := "int(11)", opts := [.notNull, .default "1"] }, false)])] :=
   ⟨_, by rfl, by decide⟩
+
+/-- the column clause of C01 on the reference engine: the printed column statements turn the old schema's table into one
+    whose columns equal the new side's, and leave every other table alone -/
+theorem columns_on_reference_engine (g : Globals) (hg : g.dialect = .mysql) (hio : g.ignoreOrder = false) (rc : Bool)
+    (old new : List Stmt) (dbO dbN : DB) (ho : old.all Stmt.elemSafe = true) (hn : new.all Stmt.elemSafe = true)
+    (hpo : old.all Stmt.plainOpts = true) (hpn : new.all Stmt.plainOpts = true)
+    (heo : execAll rc [] old = some dbO) (hen : execAll rc [] new = some dbN)
+    (d : Migration) (hd : loadAndDiff g old new = .ok d)
+    (t : String) (tbO tbN : TableSpec) (hfo : dbO.find t = some tbO) (hfn : dbN.find t = some tbN)
+    (hc : Abs.OrderCompatible tbN.colNames tbO.colNames) (hne : ∀ n ∈ tbN.colNames ++ tbO.colNames, n ≠ "")
+    (hncO : ∀ c ∈ tbO.cols, ∀ k ∈ c.opts, k.noComment = true)
+    (hncN : ∀ c ∈ tbN.cols, ∀ k ∈ c.opts, k.noComment = true) :
+    ∃ td ∈ d.tables, td.name = t ∧ td.migrationColumnUp g = .ok (Table.walkCols g t true [] td.cols) ∧
+      ∃ db' tb', execAll false dbO (Table.walkCols g t true [] td.cols).1 = some db' ∧
+        db'.find t = some tb' ∧ colsEquiv tb'.cols tbN.cols = true ∧
+        (∀ u, u ≠ t → db'.find u = dbO.find u) ∧ db'.map (·.name) = dbO.map (·.name) :=
+  columns_spec_up_db g hg hio rc old new dbO dbN ho hn hpo hpn heo hen d hd t tbO tbN hfo hfn hc hne hncO hncN
+
+-- non-vacuity of `columns_on_reference_engine`: a second table that must stay as it is; in `t` column `z` is added in
+-- front, `a` keeps its options in another order, `b` is retyped and loses NOT NULL, `x` is dropped, `c` is added last
+def exOldCE : List Stmt :=
+  [.createTable "u" 0 [{ name := "k", typ := "int(11)" }] [],
+   .createTable "t" 0 [{ name := "a", typ := "int(11)", opts := [{ kind := .notNull }, { kind := .default, dflt := .num "1" }] },
+                       { name := "x", typ := "text" },
+                       { name := "b", typ := "varchar(64)", opts := [{ kind := .notNull }] }] []]
+def exNewCE : List Stmt :=
+  [.createTable "u" 0 [{ name := "k", typ := "int(11)" }] [],
+   .createTable "t" 0 [{ name := "z", typ := "text" },
+                       { name := "a", typ := "int(11)", opts := [{ kind := .default, dflt := .num "1" }, { kind := .notNull }] },
+                       { name := "b", typ := "varchar(255)" }, { name := "c", typ := "text" }] []]
+example : exOldCE.all Stmt.elemSafe = true ∧ exNewCE.all Stmt.elemSafe = true ∧ exOldCE.all Stmt.plainOpts = true ∧
+    exNewCE.all Stmt.plainOpts = true ∧ (execAll true [] exOldCE).isSome = true ∧ (execAll true [] exNewCE).isSome = true := by decide
+example : ∃ d dbO dbN, loadAndDiff {} exOldCE exNewCE = .ok d ∧ execAll true [] exOldCE = some dbO ∧ execAll true [] exNewCE = some dbN ∧
+    (d.tables.map (fun t => (execAll false dbO (Table.walkCols {} t.name true [] t.cols).1).map (fun db' => db'.equiv dbN))) =
+      [some false, some true] :=
+  ⟨_, _, _, by rfl, by rfl, by rfl, by decide⟩
 
 /-- table clause of C01 from scripts to printed statements (MySQL reader model) -/
 theorem tables_from_scripts (g : Globals) (hg : g.dialect = .mysql) (rc : Bool) (old new : List Stmt) (dbO dbN : DB)
